@@ -19,6 +19,7 @@ def run(tier, seed):
         run_hex(rep, f"H5xSL batch<=1 prune={prune}", universe="H5", values=("S", "L"), prune=prune, props=P, batch_len=1,
                 exits=("commit", "abort"))
         run_hex(rep, f"HW4xSL direct prune={prune} (slots 0 and 15, branch value)", universe="HW4", values=("S", "L"), prune=prune, props=P)
+        run_hex(rep, f"HL4xSL direct prune={prune} (32-byte keys, extensions longer than 32 nibbles)", universe="HL", values=("S", "L"), prune=prune, props=P)
     if tier == "thorough":
         for prune in (False, True):
             run_hex(rep, f"H9xSL direct prune={prune}", universe="H9", values=("S", "L"), prune=prune, props=P)
